@@ -264,6 +264,8 @@ func c20DisturbOps(kind int, table string, item val.Item) []adapt.Op {
 	return nil
 }
 
+const c20Stale = 1000000
+
 func (p *c20) runSeq(x *res, adapter string, regs []int, reqs []c20Req, nativeOn bool, installAfterCreate bool, ctx *runner.Ctx) {
 	cl := adapt.New(adapter)
 	nc := nativeOf(cl)
@@ -272,10 +274,25 @@ func (p *c20) runSeq(x *res, adapter string, regs []int, reqs []c20Req, nativeOn
 	// installAfterCreate doubles as "register late": in that mode the (still empty) interpreter is
 	// installed and the tables are created BEFORE the callbacks are registered on it
 	registerLate := installAfterCreate && len(regs) > 0 && regs[0]%2 == 0
+	// a third of the runs register every callback TWICE under the same table, kind and text: first a stale one
+	// (identity c20Stale+ri), then the one the oracle knows. Registering again replaces: the stale one never runs.
+	stale := len(regs) > 0 && (regs[0]+len(regs)+len(reqs))%3 == 0
 	register := func() {
 		for _, ri := range regs {
 			ri := ri
 			rg := c20PoolCache[ri]
+			if stale {
+				x.r.Counters["registrations_replaced"]++
+				if rg.kind == "update" {
+					native.AddUpdater(rg.table, rg.text, func(item map[string]*mtypes.Item, vals map[string]*mtypes.Item) { ran[c20Stale+ri]++ })
+				} else {
+					et := map[string]interpreter.ExpressionType{"key": interpreter.ExpressionTypeKey, "filter": interpreter.ExpressionTypeFilter, "conditional": interpreter.ExpressionTypeConditional}[rg.kind]
+					native.AddMatcher(rg.table, et, rg.text, func(item map[string]*mtypes.Item, vals map[string]*mtypes.Item) bool {
+						ran[c20Stale+ri]++
+						return false
+					})
+				}
+			}
 			switch rg.kind {
 			case "update":
 				native.AddUpdater(rg.table, rg.text, func(item map[string]*mtypes.Item, vals map[string]*mtypes.Item) {
@@ -440,6 +457,10 @@ func (p *c20) runSeq(x *res, adapter string, regs []int, reqs []c20Req, nativeOn
 				if mustSet[ri] || may[ri] {
 					fired = ri
 					continue
+				}
+				if ri >= c20Stale {
+					x.viol("replaced-callback-fired", req.kind+seqTag, fmt.Sprintf("[%s] request %s/%s %q ran a callback that a later registration for %s had replaced", adapter, req.table, req.kind, req.text, desc(ri-c20Stale)), wit)
+					return
 				}
 				rg := c20PoolCache[ri]
 				why := "text"
